@@ -25,7 +25,7 @@
       field collection guarantees). *)
 From Coq Require Import List NArith ZArith Bool.
 From ApiFu Require Import Base.Sexp Fut.Plan Fut.Future Fut.ExecAsync Fut.ExecSync Fut.Denote Fut.SubPerm
-     Fut.Live Fut.AsyncWrap Fut.AsyncRun Fut.FutSpec Fut.FutProofs.
+     Fut.Live Fut.AsyncWrap Fut.AsyncRun Fut.FutSpec Fut.VisibleProofs Fut.FutProofs.
 Import ListNotations.
 
 (** ** the property *)
@@ -159,6 +159,21 @@ Theorem C02_conforms_tag_blind : forall a b d errs,
   same_outcomes a b -> conforms a d errs -> conforms b d errs.
 Proof. exact conforms_same_outcomes. Qed.
 
+(** The structural definition of the visible failure-nulls agrees with the reading of the data the
+    oracle uses: a site (with a non-empty list of admissible errors) at whose response path the
+    data shows null.  Hence [conforms] can equally be stated by reading the data. *)
+Theorem C02_visible_nulls_agree : forall root, wf root = true ->
+  forall x, In x (sites root) ->
+    (visible_failure_null (data_shape root) x = true <-> In x (visible_nulls root)).
+Proof. exact visible_nulls_agree. Qed.
+
+Theorem C02_conforms_by_reading : forall root d errs, wf root = true ->
+  (conforms root d errs <->
+   d = sr_data (run_sync root) /\
+   (exists ls, Forall2 lands errs ls /\ sub_perm ls (sites root)) /\
+   forall x, In x (sites root) -> visible_failure_null d x = true -> exists e, In e errs /\ lands e x).
+Proof. exact conforms_by_reading. Qed.
+
 (** The reference's own errors land one per site, and its data has the declared shape. *)
 Theorem C02_sync_reference_lands : forall root,
   sr_data (run_sync root) = data_shape root /\
@@ -218,6 +233,8 @@ Print Assumptions C02_same_error_for_every_null.
 Print Assumptions C02_same_error_refuted.
 Print Assumptions C02_same_error_refuted_by_schedule.
 Print Assumptions C02_conforms_tag_blind.
+Print Assumptions C02_visible_nulls_agree.
+Print Assumptions C02_conforms_by_reading.
 Print Assumptions C02_sync_reference_lands.
 Print Assumptions C02_poll_sound.
 Print Assumptions C02_check_schedules_fair.
